@@ -394,6 +394,14 @@ def report_all(ctx, exe, seqs, verdicts, aborts, results, stats):
             stats["violating_calls"] = stats.get("violating_calls", 0) + 1
             if sig in seen: continue
             seen.add(sig)
+            if exe:   # a violation must reproduce when its sequence runs alone in a fresh process
+                v2, ab2, _ = evaluate(ctx, exe, [dict(by_id[sid], id="confirm")], "confirm", timeout=120)
+                if not any(s2 == sig for s2, _, _ in v2.get("confirm", ([], [], []))[0]) and not ab2:
+                    stats["unconfirmed"] = stats.get("unconfirmed", 0) + 1
+                    ctx.note("not reproduced in isolation (ignored): %s in %s" % (sig, sid))
+                    if not sig.startswith("leak:"):
+                        ctx.tie_ok = False; ctx.broken.append({"kind": "non-reproducible observation", "signature": sig, "sequence": by_id[sid]})
+                    continue
             small = shrink(ctx, exe, by_id[sid], sig) if exe else by_id[sid]
             ctx.report(sig, {"sequence": small, "original_sequence": by_id[sid], "failing_op": by_id[sid]["ops"][i] if i is not None else None,
                              "harness_line": (results[sid]["ops"].get(i) or {}).get("raw") if i is not None else results[sid]["end"], "replay_cmd": replay_cmd(ctx)},
@@ -417,7 +425,7 @@ def run(ctx, only=None):
                 ctx.broken.append({"kind": "generated table fails the decidable wrapper check", "detail": chk[0]})
     if side is None:
         return
-    nseq = 220 if ctx.tier == "quick" else 1500
+    nseq = 220 if ctx.tier == "quick" else 5000
     stats = {}
     rnd = random.Random(ctx.seed * 1000003 + 18)
     gen = SeqGen(rnd, side, stats)
